@@ -331,7 +331,7 @@ pub fn jobs(pn: u32, tier: Tier) -> Vec<Job> {
     // scale: number of random cases
     // fixed work per tier (never a time limit); VERIF_SCALE multiplies the random-case budgets
     let scale: usize = std::env::var("VERIF_SCALE").ok().and_then(|s| s.parse().ok()).unwrap_or(8);
-    let n = |quick: usize, thorough: usize| if q { quick * scale } else { thorough * scale / 2 };
+    let n = |quick: usize, thorough: usize| if q { quick * scale } else { thorough * scale * 2 };
     let id: &'static str = Box::leak(crate::run::prop_id(pn).into_boxed_str());
     let mut v = Vec::new();
     match pn {
